@@ -29,13 +29,15 @@ def boundary_coords():
 
 def make_db(feats):
     import gffutils
-    lines = ["zz\t.\troot\t1\t1\t.\t.\t.\tID=ROOT"]
-    for f in feats:
-        lines.append("%s\tsrc\t%s\t%d\t%d\t.\t%s\t.\tID=%s;Parent=ROOT" % (f["seqid"], f["ftype"], f["s"], f["e"], f["strand"], f["id"]))
+    lines = ["zz\t.\troot\t1\t1\t.\t.\t.\tID=ROOT", "zz\t.\tmid\t1\t1\t.\t.\t.\tID=MID;Parent=ROOT"]
+    for n, f in enumerate(feats):
+        # every third feature hangs below ROOT twice: directly and through MID ("each feature once" all the same)
+        lines.append("%s\tsrc\t%s\t%d\t%d\t.\t%s\t.\tID=%s;Parent=%s" % (f["seqid"], f["ftype"], f["s"], f["e"], f["strand"], f["id"], "MID,ROOT" if n % 3 == 0 else "ROOT"))
     lines.append("zz\t.\tleaf\t1\t1\t.\t.\t.\tID=LEAF;Parent=" + ",".join(f["id"] for f in feats))
     with contextlib.redirect_stderr(io.StringIO()):
         db = gffutils.create_db("\n".join(lines) + "\n", ":memory:", from_string=True)
     extra = [{"id": "ROOT", "seqid": "zz", "s": 1, "e": 1, "strand": ".", "ftype": "root"},
+             {"id": "MID", "seqid": "zz", "s": 1, "e": 1, "strand": ".", "ftype": "mid"},
              {"id": "LEAF", "seqid": "zz", "s": 1, "e": 1, "strand": ".", "ftype": "leaf"}]
     return db, feats + extra
 
@@ -348,7 +350,7 @@ def replay(ctx, rec):
     if "hseed" in c["q"]:       # an event of a handle history: the whole history is run again from its seed
         hd, he, _ = history(ctx, random.Random(c["q"]["hseed"]), boundary_coords(), 0, ctx.path("replay_h.db") if c["q"]["hfile"] else ":memory:")
         return any(cl != "drift" for _, cl in judge(ctx, hd, he, "replay"))
-    feats = [f for f in c["feats"] if f["id"] not in ("ROOT", "LEAF")]
+    feats = [f for f in c["feats"] if f["id"] not in ("ROOT", "LEAF", "MID")]
     db, allf = make_db(feats)
     ev = [{"db": 1, "q": c["q"], "ids": execute(db, c["q"])}]
     return any(cl != "drift" for _, cl in judge(ctx, [allf], ev, "replay"))
